@@ -8,6 +8,13 @@ import J2M.Extracted
 namespace J2M
 namespace NamesP
 
+/-- decidable equality of results (for the `decide` examples) -/
+instance exceptDecEq {ε α} [DecidableEq ε] [DecidableEq α] : DecidableEq (Except ε α)
+  | .ok a, .ok b => if h : a = b then isTrue (by rw [h]) else isFalse (fun e => h (Except.ok.inj e))
+  | .error a, .error b => if h : a = b then isTrue (by rw [h]) else isFalse (fun e => h (Except.error.inj e))
+  | .ok _, .error _ => isFalse (fun e => by cases e)
+  | .error _, .ok _ => isFalse (fun e => by cases e)
+
 /-! ## `String` order facts -/
 
 theorem str_le_of_lt {a b : String} (h : a < b) : a ≤ b :=
@@ -558,6 +565,677 @@ theorem distinctWords_ext {a b : List String} (h : ∀ x, x ∈ a ↔ x ∈ b) (
 theorem sort_distinctWords_ext {a b : List String} (h : ∀ x, x ∈ a ↔ x ∈ b) :
     sortStrings (distinctWords a) = sortStrings (distinctWords b) :=
   sortStrings_ext_of_nodup (distinctWords_nodup a) (distinctWords_nodup b) (distinctWords_ext h)
+
+
+/-! ## `prepareLabel` -/
+
+/-- the `'a' <= s[0].lower() <= 'z'` test -/
+def azOf (o : LabelOracles) (c : Char) : Option Bool :=
+  if c.toNat < 128 then some (decide ('a' ≤ c.toLower ∧ c.toLower ≤ 'z')) else o.lowerAz c
+
+/-- leading ASCII digit → word + `_` -/
+def digitFix (az : Bool) (c : Char) (rest : List Char) (s : String) : String :=
+  if !az && decide ('0' ≤ c ∧ c ≤ '9') then onesTable.getD (c.toNat - 48) "" ++ "_" ++ String.ofList rest else s
+
+/-- the blacklist suffix -/
+def blSuffix (bl : List String) (s : String) : String := if bl.contains s then s ++ "_" else s
+
+/-- the pure tail of `prepare_label` after `re.sub` -/
+def labelTail (o : LabelOracles) (bl : List String) (snake : Bool) (s2 : String) : Except PyErr String :=
+  match s2.toList with
+  | [] => .error .indexError
+  | c :: rest =>
+    match azOf o c with
+    | none => .error (.oracleMiss "lowerAz")
+    | some az =>
+      let s3 := digitFix az c rest s2
+      if snake then
+        match o.underscore s3 with
+        | none => .error (.oracleMiss ("underscore " ++ s3))
+        | some s4 => .ok (blSuffix bl s4)
+      else .ok (blSuffix bl s3)
+
+def labelHead (o : LabelOracles) (cu : Bool) (s : String) : Except PyErr String :=
+  match (if cu then o.unidecode s else some s) with
+  | none => .error (.oracleMiss ("unidecode " ++ s))
+  | some s1 =>
+    match o.stripW s1 with
+    | none => .error (.oracleMiss ("stripW " ++ s1))
+    | some s2 => .ok s2
+
+theorem prepareLabel_eq (o : LabelOracles) (bl : List String) (cu snake : Bool) (s : String) :
+    prepareLabel o bl cu snake s = (labelHead o cu s >>= labelTail o bl snake) := by
+  unfold prepareLabel labelHead
+  cases cu
+  · simp only [Bool.false_eq_true, if_false, pure_bind]
+    cases h2 : o.stripW s
+    · simp [orc, bind, Except.bind]
+    · rename_i s2
+      simp only [orc, bind, Except.bind, labelTail]
+      cases h3 : s2.toList
+      · simp
+      · rename_i c rest
+        simp only [azOf]
+        by_cases hc : c.toNat < 128
+        · simp only [hc, if_true, pure, Except.pure, digitFix, blSuffix]
+          cases snake
+          · simp
+          · simp only [if_true]
+            cases o.underscore _ <;> simp
+        · simp only [hc, if_false]
+          cases o.lowerAz c
+          · simp
+          · simp only [pure, Except.pure, digitFix, blSuffix]
+            cases snake
+            · simp
+            · simp only [if_true]
+              cases o.underscore _ <;> simp
+  · simp only [if_true]
+    cases h1 : o.unidecode s
+    · simp [orc, bind, Except.bind]
+    · rename_i s1
+      cases h2 : o.stripW s1
+      · simp [orc, bind, Except.bind, h2]
+      · rename_i s2
+        simp only [orc, bind, Except.bind, labelTail, h2]
+        cases h3 : s2.toList
+        · simp
+        · rename_i c rest
+          simp only [azOf]
+          by_cases hc : c.toNat < 128
+          · simp only [hc, if_true, pure, Except.pure, digitFix, blSuffix]
+            cases snake
+            · simp
+            · simp only [if_true]
+              cases o.underscore _ <;> simp
+          · simp only [hc, if_false]
+            cases o.lowerAz c
+            · simp
+            · simp only [pure, Except.pure, digitFix, blSuffix]
+              cases snake
+              · simp
+              · simp only [if_true]
+                cases o.underscore _ <;> simp
+
+
+theorem prepareLabel_ok_iff {o : LabelOracles} {bl : List String} {cu snake : Bool} {s r : String} :
+    prepareLabel o bl cu snake s = .ok r ↔ ∃ s2, labelHead o cu s = .ok s2 ∧ labelTail o bl snake s2 = .ok r := by
+  rw [prepareLabel_eq]
+  cases labelHead o cu s <;> simp [bind, Except.bind]
+
+theorem labelHead_ok_iff {o : LabelOracles} {cu : Bool} {s s2 : String} :
+    labelHead o cu s = .ok s2 ↔ ∃ s1, (if cu then o.unidecode s else some s) = some s1 ∧ o.stripW s1 = some s2 := by
+  unfold labelHead
+  cases (if cu then o.unidecode s else some s)
+  · simp
+  · rename_i s1; simp only [Option.some.injEq, exists_eq_left']
+    cases o.stripW s1 <;> simp
+
+theorem labelHead_not_indexError {o : LabelOracles} {cu : Bool} {s : String} :
+    labelHead o cu s ≠ .error .indexError := by
+  unfold labelHead
+  cases (if cu then o.unidecode s else some s)
+  · simp
+  · rename_i s1; simp only; cases o.stripW s1 <;> simp
+
+theorem toList_eq_nil_iff {s : String} : s.toList = [] ↔ s = "" := by
+  rw [← String.toList_inj]; rfl
+
+theorem labelTail_indexError_iff {o : LabelOracles} {bl : List String} {snake : Bool} {s2 : String} :
+    labelTail o bl snake s2 = .error .indexError ↔ s2 = "" := by
+  unfold labelTail
+  cases h : s2.toList
+  · simp [toList_eq_nil_iff.mp h]
+  · rename_i c rest
+    have hne : s2 ≠ "" := fun e => by rw [toList_eq_nil_iff.mpr e] at h; cases h
+    simp only [hne, iff_false]
+    cases azOf o c
+    · simp
+    · simp only
+      cases snake
+      · simp
+      · simp only [if_true]; cases o.underscore _ <;> simp
+
+/-- `prepare_label` raises `IndexError` exactly when nothing is left after `re.sub(r"\W", "", ·)` -/
+theorem prepareLabel_indexError_iff {o : LabelOracles} {bl : List String} {cu snake : Bool} {s : String} :
+    prepareLabel o bl cu snake s = .error .indexError ↔ labelHead o cu s = .ok "" := by
+  rw [prepareLabel_eq]
+  cases h : labelHead o cu s
+  · rename_i e
+    simp only [bind, Except.bind]
+    constructor
+    · intro h'; injection h' with h'; exact absurd (h' ▸ h) labelHead_not_indexError
+    · intro h'; cases h'
+  · rename_i s2
+    simp only [bind, Except.bind, labelTail_indexError_iff]
+    constructor
+    · intro e; rw [e]
+    · intro e; injection e
+
+/-- what a successful tail run looks like -/
+theorem labelTail_ok {o : LabelOracles} {bl : List String} {snake : Bool} {s2 r : String}
+    (h : labelTail o bl snake s2 = .ok r) :
+    ∃ c rest az s4, s2.toList = c :: rest ∧ azOf o c = some az ∧
+      (if snake then o.underscore (digitFix az c rest s2) = some s4 else s4 = digitFix az c rest s2) ∧
+      r = blSuffix bl s4 := by
+  unfold labelTail at h
+  cases h3 : s2.toList
+  · simp [h3] at h
+  · rename_i c rest
+    simp only [h3] at h
+    cases haz : azOf o c
+    · simp [haz] at h
+    · rename_i az
+      simp only [haz] at h
+      cases snake
+      · simp only [Bool.false_eq_true, if_false] at h
+        injection h with h
+        exact ⟨c, rest, az, _, rfl, haz, by simp, h.symm⟩
+      · simp only [if_true] at h
+        cases hu : o.underscore (digitFix az c rest s2)
+        · simp [hu] at h
+        · rename_i s4
+          simp only [hu] at h
+          injection h with h
+          exact ⟨c, rest, az, s4, rfl, haz, by simpa using hu, h.symm⟩
+
+theorem blSuffix_not_mem {bl : List String} (hbl : ∀ w ∈ bl, w ++ "_" ∉ bl) (s : String) :
+    blSuffix bl s ∉ bl := by
+  unfold blSuffix
+  by_cases h : s ∈ bl
+  · simp only [List.contains_eq_mem, h, decide_true, if_true]; exact hbl s h
+  · simp [h]
+
+theorem blSuffix_of_not_mem {bl : List String} {s : String} (h : s ∉ bl) : blSuffix bl s = s := by
+  simp [blSuffix, h]
+
+theorem append_ne_empty_right (a : String) {b : String} (hb : b ≠ "") : a ++ b ≠ "" := by
+  intro e
+  have := congrArg String.toList e
+  rw [String.toList_append] at this
+  simp at this
+  exact hb this.2
+
+theorem append_ne_empty_left {a : String} (b : String) (ha : a ≠ "") : a ++ b ≠ "" := by
+  intro e
+  have := congrArg String.toList e
+  rw [String.toList_append] at this
+  simp at this
+  exact ha this.1
+
+theorem blSuffix_ne_empty {bl : List String} {s : String} (h : s ≠ "") : blSuffix bl s ≠ "" := by
+  unfold blSuffix; split
+  · exact append_ne_empty_left _ h
+  · exact h
+
+theorem digitFix_ne_empty {az : Bool} {c : Char} {rest : List Char} {s2 : String}
+    (h : s2.toList = c :: rest) : digitFix az c rest s2 ≠ "" := by
+  unfold digitFix; split
+  · exact append_ne_empty_left _ (append_ne_empty_right _ (by decide))
+  · intro e; rw [toList_eq_nil_iff.mpr e] at h; cases h
+
+/-- `inflection.underscore` does not return the empty string for a non-empty argument -/
+def UnderscoreNonempty (o : LabelOracles) : Prop := ∀ s t, o.underscore s = some t → s ≠ "" → t ≠ ""
+
+
+theorem prepareLabel_not_blacklisted' {o : LabelOracles} {bl : List String} {cu snake : Bool} {s r : String}
+    (hbl : ∀ w ∈ bl, w ++ "_" ∉ bl) (h : prepareLabel o bl cu snake s = .ok r) : r ∉ bl := by
+  obtain ⟨s2, _, h2⟩ := prepareLabel_ok_iff.mp h
+  obtain ⟨c, rest, az, s4, _, _, _, hr⟩ := labelTail_ok h2
+  rw [hr]; exact blSuffix_not_mem hbl s4
+
+theorem prepareLabel_nonempty' {o : LabelOracles} {bl : List String} {cu snake : Bool} {s r : String}
+    (hu : UnderscoreNonempty o) (h : prepareLabel o bl cu snake s = .ok r) : r ≠ "" := by
+  obtain ⟨s2, _, h2⟩ := prepareLabel_ok_iff.mp h
+  obtain ⟨c, rest, az, s4, h3, _, h4, hr⟩ := labelTail_ok h2
+  rw [hr]; apply blSuffix_ne_empty
+  cases snake
+  · simp at h4; rw [h4]; exact digitFix_ne_empty h3
+  · simp at h4; exact hu _ _ h4 (digitFix_ne_empty h3)
+
+/-- the head character is a digit that gets spelled out -/
+def DigitHead (az : Bool) (c : Char) : Bool := !az && decide ('0' ≤ c ∧ c ≤ '9')
+
+/-- a string on which the tail of `prepare_label` does nothing -/
+theorem labelTail_fix {o : LabelOracles} {bl : List String} {snake : Bool} {r : String} {c : Char}
+    {rest : List Char} {az : Bool}
+    (h3 : r.toList = c :: rest) (haz : azOf o c = some az) (hd : DigitHead az c = false)
+    (hs : snake = true → o.underscore r = some r) (hbl : r ∉ bl) :
+    labelTail o bl snake r = .ok r := by
+  unfold labelTail
+  simp only [h3, haz]
+  have : digitFix az c rest r = r := by
+    unfold digitFix; unfold DigitHead at hd; rw [hd]; simp
+  simp only [this]
+  cases snake
+  · simp [blSuffix_of_not_mem hbl]
+  · simp [hs rfl, blSuffix_of_not_mem hbl]
+
+theorem blSuffix_toList (bl : List String) (s : String) :
+    ∃ t, (blSuffix bl s).toList = s.toList ++ t := by
+  unfold blSuffix; split
+  · exact ⟨"_".toList, by rw [String.toList_append]⟩
+  · exact ⟨[], by simp⟩
+
+theorem digit_cases {c : Char} (h : '0' ≤ c ∧ c ≤ '9') : ∃ n, n < 10 ∧ c.toNat = 48 + n := by
+  have h1 : 48 ≤ c.toNat := by
+    have := h.1; rw [Char.le_def, UInt32.le_iff_toNat_le] at this; exact this
+  have h2 : c.toNat ≤ 57 := by
+    have := h.2; rw [Char.le_def, UInt32.le_iff_toNat_le] at this; exact this
+  exact ⟨c.toNat - 48, by omega, by omega⟩
+
+/-- the spelled-out digit starts with a character that is not rewritten again -/
+theorem digit_word_head (o : LabelOracles) {c : Char} (h : '0' ≤ c ∧ c ≤ '9') (rest : List Char) :
+    ∃ c' rest' az', (onesTable.getD (c.toNat - 48) "" ++ "_" ++ String.ofList rest).toList = c' :: rest' ∧
+      azOf o c' = some az' ∧ DigitHead az' c' = false := by
+  obtain ⟨n, hn, hc⟩ := digit_cases h
+  rw [hc]
+  simp only [Nat.add_sub_cancel_left, String.toList_append]
+  have : n = 0 ∨ n = 1 ∨ n = 2 ∨ n = 3 ∨ n = 4 ∨ n = 5 ∨ n = 6 ∨ n = 7 ∨ n = 8 ∨ n = 9 := by omega
+  rcases this with rfl | rfl | rfl | rfl | rfl | rfl | rfl | rfl | rfl | rfl
+  · exact ⟨'_', _, false, rfl, by unfold azOf; rw [if_pos (by decide)]; decide, by decide⟩
+  · exact ⟨'o', _, true, rfl, by unfold azOf; rw [if_pos (by decide)]; decide, by decide⟩
+  · exact ⟨'t', _, true, rfl, by unfold azOf; rw [if_pos (by decide)]; decide, by decide⟩
+  · exact ⟨'t', _, true, rfl, by unfold azOf; rw [if_pos (by decide)]; decide, by decide⟩
+  · exact ⟨'f', _, true, rfl, by unfold azOf; rw [if_pos (by decide)]; decide, by decide⟩
+  · exact ⟨'f', _, true, rfl, by unfold azOf; rw [if_pos (by decide)]; decide, by decide⟩
+  · exact ⟨'s', _, true, rfl, by unfold azOf; rw [if_pos (by decide)]; decide, by decide⟩
+  · exact ⟨'s', _, true, rfl, by unfold azOf; rw [if_pos (by decide)]; decide, by decide⟩
+  · exact ⟨'e', _, true, rfl, by unfold azOf; rw [if_pos (by decide)]; decide, by decide⟩
+  · exact ⟨'n', _, true, rfl, by unfold azOf; rw [if_pos (by decide)]; decide, by decide⟩
+
+
+theorem labelHead_fix {o : LabelOracles} {cu : Bool} {r : String}
+    (hU : cu = true → o.unidecode r = some r) (hS : o.stripW r = some r) : labelHead o cu r = .ok r := by
+  rw [labelHead_ok_iff]
+  refine ⟨r, ?_, hS⟩
+  cases cu
+  · simp
+  · simp [hU rfl]
+
+/-- class-name mode (`to_snake_case = False`): a label is a fixed point of `prepare_label`, provided the
+    two regular-expression/transliteration oracles leave it alone -/
+theorem label_idempotent' {o : LabelOracles} {bl : List String} {cu : Bool} {s r : String}
+    (hbl : ∀ w ∈ bl, w ++ "_" ∉ bl) (h : prepareLabel o bl cu false s = .ok r)
+    (hU : cu = true → o.unidecode r = some r) (hS : o.stripW r = some r) :
+    prepareLabel o bl cu false r = .ok r := by
+  have hnb := prepareLabel_not_blacklisted' hbl h
+  obtain ⟨s2, _, h2⟩ := prepareLabel_ok_iff.mp h
+  obtain ⟨c, rest, az, s4, h3, haz, h4, hr⟩ := labelTail_ok h2
+  simp only [Bool.false_eq_true, if_false] at h4
+  rw [prepareLabel_ok_iff]
+  refine ⟨r, labelHead_fix hU hS, ?_⟩
+  obtain ⟨t, ht⟩ := blSuffix_toList bl s4
+  rw [← hr] at ht
+  cases hd : DigitHead az c
+  · have : s4 = s2 := by rw [h4]; unfold digitFix; unfold DigitHead at hd; rw [hd]; simp
+    rw [this, h3] at ht
+    exact labelTail_fix (c := c) (rest := rest ++ t) (az := az) (by simpa using ht) haz hd (by simp) hnb
+  · have hdig : '0' ≤ c ∧ c ≤ '9' := by
+      unfold DigitHead at hd; simp at hd; exact hd.2
+    have : s4 = onesTable.getD (c.toNat - 48) "" ++ "_" ++ String.ofList rest := by
+      rw [h4]; unfold digitFix; unfold DigitHead at hd; rw [hd]; simp
+    obtain ⟨c', rest', az', e1, e2, e3⟩ := digit_word_head o hdig rest
+    rw [this, e1] at ht
+    exact labelTail_fix (c := c') (rest := rest' ++ t) (az := az') (by simpa using ht) e2 e3 (by simp) hnb
+
+
+/-! ## `Index` -/
+
+theorem nat_toString_inj {m n : Nat} (h : toString m = toString n) : m = n := by
+  rw [Nat.toString_eq_repr, Nat.toString_eq_repr] at h
+  have := congrArg String.toList h
+  rw [Nat.toList_repr, Nat.toList_repr] at this
+  have h2 := congrArg (fun l => Nat.ofDigitChars 10 l 0) this
+  simpa [Nat.ofDigitChars_ten_toDigits] using h2
+
+theorem toNat_ofNat_valid {n : Nat} (h : n.isValidChar) : (Char.ofNat n).toNat = n := by
+  unfold Char.ofNat
+  rw [dif_pos h]
+  simp [Char.ofNatAux, Char.toNat]
+
+theorem letter_inj {a b : Nat} (ha : a < 26) (hb : b < 26) (h : Char.ofNat (65 + a) = Char.ofNat (65 + b)) :
+    a = b := by
+  have := congrArg Char.toNat h
+  have va : (65 + a).isValidChar := by left; omega
+  have vb : (65 + b).isValidChar := by left; omega
+  rw [toNat_ofNat_valid va, toNat_ofNat_valid vb] at this
+  omega
+
+theorem indexOf_toList (n : Nat) :
+    (indexOf n).toList = (toString (n / 26 + 1)).toList ++ [Char.ofNat (65 + n % 26)] := by
+  unfold indexOf; rw [String.toList_append]; simp
+
+/-- registry indices `1A, 1B, …, 1Z, 2A, …` are pairwise distinct -/
+theorem indexOf_injective' {a b : Nat} (h : indexOf a = indexOf b) : a = b := by
+  have := congrArg String.toList h
+  rw [indexOf_toList, indexOf_toList] at this
+  have ⟨h1, h2⟩ := List.append_inj' this rfl
+  have e1 := nat_toString_inj (String.toList_inj.mp h1)
+  have e2 := letter_inj (Nat.mod_lt _ (by omega)) (Nat.mod_lt _ (by omega)) (by simpa using h2)
+  have := Nat.div_add_mod a 26
+  have := Nat.div_add_mod b 26
+  omega
+
+
+theorem indexOf_no_underscore (n : Nat) : '_' ∉ (indexOf n).toList := by
+  rw [indexOf_toList, Nat.toString_eq_repr, Nat.toList_repr]
+  intro h
+  rcases List.mem_append.mp h with h | h
+  · exact Nat.underscore_not_in_toDigits h
+  · simp at h
+    have hlt := Nat.mod_lt n (show 26 > 0 by omega)
+    have hv : (65 + n % 26).isValidChar := by left; omega
+    have := congrArg Char.toNat h
+    rw [toNat_ofNat_valid hv] at this
+    have h2 : ('_' : Char).toNat = 95 := by decide
+    omega
+
+/-! ## `fix_name_duplicates` -/
+
+/-- what `fix_name_duplicates` does when every model has a non-empty name: the first occurrence of a name
+    keeps it, each later one gets `_<index>` appended -/
+def fixSpec (seen : List String) : List Model → List Model
+  | [] => []
+  | m :: ms =>
+    let n := m.name.getD ""
+    (if seen.contains n then { m with name := some (n ++ "_" ++ m.idx), nameGen := some true } else m)
+      :: fixSpec (n :: seen) ms
+
+/-- every model carries a non-empty name (true after the first loop of `generate_names`, unless the caller
+    supplied an empty model name) -/
+def Named (ms : List Model) : Prop := ∀ m ∈ ms, ∃ n, m.name = some n ∧ n ≠ ""
+
+def ctrGet (counter : List (String × Nat)) (k : String) : Nat := ((counter.find? (·.1 == k)).map (·.2)).getD 0
+
+def fixStep (st : List Model × List (String × Nat)) (m : Model) : List Model × List (String × Nat) :=
+    let key := match m.name with | some n => if n.isEmpty then m.idx else n | none => m.idx
+    let cnt := ((st.2.find? (·.1 == key)).map (·.2)).getD 0 + 1
+    let counter := (key, cnt) :: st.2.filter (·.1 != key)
+    let cntName : Nat := match m.name with
+      | some n => ((counter.find? (·.1 == n)).map (·.2)).getD 0
+      | none => 0
+    let m' := if cntName > 1 then { m with name := some ((m.name.getD "") ++ "_" ++ m.idx), nameGen := some true } else m
+    (st.1 ++ [m'], counter)
+
+theorem fixNameDuplicates_eq (ms : List Model) : fixNameDuplicates ms = (ms.foldl fixStep ([], [])).1 := rfl
+
+theorem ctrGet_cons_filter (counter : List (String × Nat)) (key k : String) (v : Nat) :
+    ctrGet ((key, v) :: counter.filter (·.1 != key)) k = if k = key then v else ctrGet counter k := by
+  unfold ctrGet
+  by_cases h : k = key
+  · subst h; simp
+  · have h' : (key == k) = false := by simp [Ne.symm h]
+    simp only [List.find?_cons, h', h, if_false]
+    congr 2
+    induction counter with
+    | nil => simp
+    | cons kv rest ih =>
+      simp only [List.filter_cons]
+      by_cases h1 : kv.1 = key
+      · have : (kv.1 == k) = false := by simp [h1, Ne.symm h]
+        simp [h1, h', ih]
+      · simp only [bne_iff_ne, ne_eq, h1, not_false_eq_true, if_true, List.find?_cons]
+        split
+        · rfl
+        · exact ih
+
+theorem fixStep_named {st : List Model × List (String × Nat)} {m : Model} {seen : List String} {n : String}
+    (hn : m.name = some n) (hne : n ≠ "") (hinv : ∀ k, ctrGet st.2 k = seen.count k) :
+    fixStep st m = (st.1 ++ [if seen.contains n then { m with name := some (n ++ "_" ++ m.idx), nameGen := some true } else m],
+                    (n, seen.count n + 1) :: st.2.filter (·.1 != n)) ∧
+    ∀ k, ctrGet ((n, seen.count n + 1) :: st.2.filter (·.1 != n)) k = (n :: seen).count k := by
+  have hemp : n.isEmpty = false := by
+    cases h : n.isEmpty
+    · rfl
+    · exact absurd (String.isEmpty_iff.mp h) hne
+  constructor
+  · unfold fixStep
+    simp only [hn, hemp, Bool.false_eq_true, if_false, Option.getD_some]
+    have h1 : ((st.2.find? (·.1 == n)).map (·.2)).getD 0 = seen.count n := hinv n
+    rw [h1]
+    have h2 := ctrGet_cons_filter st.2 n n (seen.count n + 1)
+    unfold ctrGet at h2
+    simp only [if_true] at h2
+    rw [h2]
+    by_cases hs : n ∈ seen
+    · have : seen.count n > 0 := List.count_pos_iff.mpr hs
+      simp [hs, this]
+    · have : seen.count n = 0 := List.count_eq_zero.mpr hs
+      simp [hs, this]
+  · intro k
+    rw [ctrGet_cons_filter, hinv k, List.count_cons]
+    by_cases h : k = n
+    · subst h; simp
+    · have : (n == k) = false := by simp [Ne.symm h]
+      simp [h, this]
+
+theorem fixFold_spec : ∀ (ms : List Model) (st : List Model × List (String × Nat)) (seen : List String),
+    Named ms → (∀ k, ctrGet st.2 k = seen.count k) →
+    (ms.foldl fixStep st).1 = st.1 ++ fixSpec seen ms := by
+  intro ms
+  induction ms with
+  | nil => intro st seen _ _; simp [fixSpec]
+  | cons m ms ih =>
+    intro st seen hN hinv
+    obtain ⟨n, hn, hne⟩ := hN m List.mem_cons_self
+    obtain ⟨e, hinv'⟩ := fixStep_named hn hne hinv
+    simp only [List.foldl_cons, e]
+    rw [ih _ (n :: seen) (fun x hx => hN x (List.mem_cons_of_mem _ hx)) hinv']
+    simp [fixSpec, hn]
+
+/-- "first occurrence of a name keeps it; later ones get `_<index>` appended" -/
+theorem fixNameDuplicates_spec {ms : List Model} (h : Named ms) : fixNameDuplicates ms = fixSpec [] ms := by
+  rw [fixNameDuplicates_eq, fixFold_spec ms ([], []) [] h (by intro k; simp [ctrGet])]
+  simp
+
+
+/-- registry indices are pairwise distinct -/
+def IdxDistinct (ms : List Model) : Prop := (ms.map (·.idx)).Nodup
+/-- registry indices contain no underscore (true for `Index` values, `indexOf_no_underscore`) -/
+def IdxNoUnderscore (ms : List Model) : Prop := ∀ m ∈ ms, '_' ∉ m.idx.toList
+/-- no model is already called `<name>_<index>` of a model of the registry -/
+def NoSuffixClash (ms : List Model) : Prop :=
+  ∀ m ∈ ms, ∀ m' ∈ ms, m.name ≠ some (m'.name.getD "" ++ "_" ++ m'.idx)
+
+theorem split_last {c : Char} : ∀ (l1 l2 r1 r2 : List Char), c ∉ l1 → c ∉ l2 →
+    l1 ++ c :: r1 = l2 ++ c :: r2 → l1 = l2 := by
+  intro l1
+  induction l1 with
+  | nil =>
+    intro l2 r1 r2 _ h2 e
+    cases l2 with
+    | nil => rfl
+    | cons x l2 => simp at e; exact absurd (e.1 ▸ List.mem_cons_self) h2
+  | cons a l1 ih =>
+    intro l2 r1 r2 h1 h2 e
+    cases l2 with
+    | nil => simp at e; exact absurd (e.1 ▸ List.mem_cons_self) h1
+    | cons x l2 =>
+      simp at e
+      rw [e.1, ih l2 r1 r2 (fun h => h1 (List.mem_cons_of_mem _ h)) (fun h => h2 (List.mem_cons_of_mem _ h)) e.2]
+
+theorem suffix_inj {a b x y : String} (hx : '_' ∉ x.toList) (hy : '_' ∉ y.toList)
+    (h : a ++ "_" ++ x = b ++ "_" ++ y) : x = y := by
+  have := congrArg (fun s => s.toList.reverse) h
+  simp only [String.toList_append, List.reverse_append] at this
+  have e : ("_" : String).toList.reverse = ['_'] := by decide
+  rw [e] at this
+  have := split_last x.toList.reverse y.toList.reverse _ _ (by simpa using hx) (by simpa using hy)
+    (by simpa using this)
+  exact String.toList_inj.mp (List.reverse_inj.mp this)
+
+theorem fixSpec_name_mem : ∀ (ms : List Model) (seen : List String) (o : Option String),
+    o ∈ (fixSpec seen ms).map (·.name) →
+    ∃ m' ∈ ms, (o = m'.name ∧ m'.name.getD "" ∉ seen) ∨ o = some (m'.name.getD "" ++ "_" ++ m'.idx) := by
+  intro ms
+  induction ms with
+  | nil => intro seen o h; simp [fixSpec] at h
+  | cons m ms ih =>
+    intro seen o h
+    simp only [fixSpec, List.map_cons, List.mem_cons] at h
+    rcases h with h | h
+    · refine ⟨m, List.mem_cons_self, ?_⟩
+      by_cases hs : m.name.getD "" ∈ seen
+      · right; simpa [hs] using h
+      · left; exact ⟨by simpa [hs] using h, hs⟩
+    · obtain ⟨m', hm', hh⟩ := ih _ o h
+      refine ⟨m', List.mem_cons_of_mem _ hm', ?_⟩
+      rcases hh with ⟨h1, h2⟩ | h1
+      · left; exact ⟨h1, fun hs => h2 (List.mem_cons_of_mem _ hs)⟩
+      · right; exact h1
+
+theorem fixSpec_nodup : ∀ (ms : List Model) (seen : List String),
+    Named ms → IdxDistinct ms → IdxNoUnderscore ms → NoSuffixClash ms →
+    ((fixSpec seen ms).map (·.name)).Nodup := by
+  intro ms
+  induction ms with
+  | nil => intro seen _ _ _ _; simp [fixSpec]
+  | cons m ms ih =>
+    intro seen hN hD hU hC
+    have hN' : Named ms := fun x hx => hN x (List.mem_cons_of_mem _ hx)
+    have hD' : IdxDistinct ms := by
+      unfold IdxDistinct at hD ⊢; simp only [List.map_cons, List.nodup_cons] at hD; exact hD.2
+    have hU' : IdxNoUnderscore ms := fun x hx => hU x (List.mem_cons_of_mem _ hx)
+    have hC' : NoSuffixClash ms :=
+      fun x hx y hy => hC x (List.mem_cons_of_mem _ hx) y (List.mem_cons_of_mem _ hy)
+    obtain ⟨n, hn, hne⟩ := hN m List.mem_cons_self
+    simp only [fixSpec, List.map_cons, List.nodup_cons]
+    refine ⟨?_, ih _ hN' hD' hU' hC'⟩
+    intro hmem
+    obtain ⟨m', hm', hh⟩ := fixSpec_name_mem ms _ _ hmem
+    have hm'L : m' ∈ m :: ms := List.mem_cons_of_mem _ hm'
+    simp only [hn, Option.getD_some] at hh
+    by_cases hs : n ∈ seen
+    · simp only [List.contains_eq_mem, hs, decide_true, if_true] at hh
+      rcases hh with ⟨h1, _⟩ | h1
+      · -- renamed `m` against a kept later model
+        exact hC m' hm'L m List.mem_cons_self (by rw [← h1, hn]; rfl)
+      · -- both renamed: indices would coincide
+        have e := suffix_inj (hU m List.mem_cons_self) (hU m' hm'L) (Option.some.inj h1)
+        unfold IdxDistinct at hD
+        simp only [List.map_cons, List.nodup_cons] at hD
+        exact hD.1 (e ▸ List.mem_map_of_mem (f := (·.idx)) hm')
+    · simp only [List.contains_eq_mem, hs, decide_false, Bool.false_eq_true, if_false] at hh
+      rcases hh with ⟨h1, h2⟩ | h1
+      · -- two kept models with the same name: the later one would have been renamed
+        apply h2
+        rw [← h1, hn]; exact List.mem_cons_self
+      · exact hC m List.mem_cons_self m' hm'L h1
+
+/-- after `fix_name_duplicates` the class names are pairwise distinct -/
+theorem fixNameDuplicates_distinct' {ms : List Model}
+    (hN : Named ms) (hD : IdxDistinct ms) (hU : IdxNoUnderscore ms) (hC : NoSuffixClash ms) :
+    ((fixNameDuplicates ms).map (·.name)).Nodup := by
+  rw [fixNameDuplicates_spec hN]; exact fixSpec_nodup ms [] hN hD hU hC
+
+
+/-! ## order-free corollaries -/
+
+/-- the first element of the sorted list (the minimum) depends only on the set of elements -/
+theorem sortStrings_head_ext {a b : List String} (h : ∀ x, x ∈ a ↔ x ∈ b) :
+    (sortStrings a).headD "" = (sortStrings b).headD "" := by
+  cases ea : sortStrings a with
+  | nil =>
+    have ha : a = [] := List.length_eq_zero_iff.mp (by rw [← sortStrings_length, ea]; rfl)
+    have hb : b = [] := by
+      cases b with
+      | nil => rfl
+      | cons y ys => have := (h y).mpr List.mem_cons_self; rw [ha] at this; cases this
+    rw [hb]; rfl
+  | cons x xs =>
+    cases eb : sortStrings b with
+    | nil =>
+      have hb : b = [] := List.length_eq_zero_iff.mp (by rw [← sortStrings_length, eb]; rfl)
+      have := (h x).mp (sortStrings_head_le ea).1
+      rw [hb] at this; cases this
+    | cons y ys =>
+      obtain ⟨hx, hxm⟩ := sortStrings_head_le ea
+      obtain ⟨hy, hym⟩ := sortStrings_head_le eb
+      simp only [List.headD_cons]
+      exact String.le_antisymm (hxm y ((h y).mpr hy)) (hym x ((h x).mp hx))
+
+theorem mapM_orc {α β} (c : String) (φ : α → Option β) (l : List α) :
+    l.mapM (fun x => orc c (φ x)) =
+      if l.all (fun x => (φ x).isSome) then .ok (l.filterMap φ) else .error (.oracleMiss c) := by
+  induction l with
+  | nil => simp [pure, Except.pure]
+  | cons x xs ih =>
+    rw [List.mapM_cons, ih]
+    cases hx : φ x with
+    | none => simp [orc, bind, Except.bind, hx]
+    | some y =>
+      simp only [orc, bind, Except.bind, List.all_cons, hx, Option.isSome_some, Bool.true_and,
+        List.filterMap_cons]
+      cases xs.all (fun x => (φ x).isSome) <;> simp [pure, Except.pure]
+
+theorem mapM_orc_perm {α β} (c : String) (φ : α → Option β) {l₁ l₂ : List α} (h : l₁.Perm l₂) :
+    (∃ r₁ r₂, l₁.mapM (fun x => orc c (φ x)) = .ok r₁ ∧ l₂.mapM (fun x => orc c (φ x)) = .ok r₂ ∧ r₁.Perm r₂) ∨
+    (l₁.mapM (fun x => orc c (φ x)) = .error (.oracleMiss c) ∧ l₂.mapM (fun x => orc c (φ x)) = .error (.oracleMiss c)) := by
+  rw [mapM_orc, mapM_orc]
+  have hall : l₁.all (fun x => (φ x).isSome) = l₂.all (fun x => (φ x).isSome) := by
+    rw [Bool.eq_iff_iff, List.all_eq_true, List.all_eq_true]
+    exact ⟨fun H x hx => H x (h.mem_iff.mpr hx), fun H x hx => H x (h.mem_iff.mp hx)⟩
+  rw [hall]
+  cases l₂.all (fun x => (φ x).isSome)
+  · right; simp
+  · left; exact ⟨_, _, by simp, by simp, h.filterMap φ⟩
+
+/-- `ModelMeta.generate_name` does not depend on the iteration order of the `pointers` set -/
+theorem generateName_perm' (no : NameOracles) {g₁ g₂ : Graph} (h : g₁.ptrs.Perm g₂.ptrs) (m : Model) :
+    generateName no g₁ m = generateName no g₂ m := by
+  unfold generateName
+  have hf : ((g₁.ptrs.filter (fun p => p.target == m.idx && p.parent.isSome)).filterMap (·.field)).Perm
+      ((g₂.ptrs.filter (fun p => p.target == m.idx && p.parent.isSome)).filterMap (·.field)) :=
+    (h.filter _).filterMap _
+  rcases mapM_orc_perm "singUnder" no.singUnder hf with ⟨r₁, r₂, e₁, e₂, hp⟩ | ⟨e₁, e₂⟩
+  · simp only [e₁, e₂, bind, Except.bind]
+    rw [sort_distinctWords_ext (fun x => hp.mem_iff)]
+  · simp only [e₁, e₂, bind, Except.bind]
+
+
+/-! ## executable blacklist checks (for `decide +kernel` over `Extracted`) -/
+
+/-- the UTF-8 bytes of a string as numbers (cheap to compare in the kernel) -/
+def bytesN (s : String) : List Nat := s.toByteArray.data.toList.map UInt8.toNat
+
+theorem bytesN_inj {a b : String} (h : bytesN a = bytesN b) : a = b := by
+  unfold bytesN at h
+  have h1 := (List.map_inj_right (fun x y => UInt8.toNat_inj.mp)).mp h
+  exact String.toByteArray_inj.mp (ByteArray.ext (Array.toList_inj.mp h1))
+
+theorem bytesN_append_us (w : String) : bytesN (w ++ "_") = bytesN w ++ [95] := by
+  unfold bytesN
+  rw [String.toByteArray_append, ByteArray.data_append]
+  have : ("_" : String).toByteArray.data = #[95] := by decide +kernel
+  rw [this]; simp
+
+theorem mem_of_bytesN_mem {k : String} {bl : List String} (h : bytesN k ∈ bl.map bytesN) : k ∈ bl := by
+  obtain ⟨x, hx, e⟩ := List.mem_map.mp h
+  exact bytesN_inj e ▸ hx
+
+def blSuffixCheck (bl : List String) : Bool :=
+  let B := bl.map bytesN
+  let C := B.filter (fun w => w.getLast? == some 95)
+  B.all (fun w => !C.contains (w ++ [95]))
+
+def subsetCheck (ks bl : List String) : Bool :=
+  let B := bl.map bytesN
+  ks.all (fun k => B.contains (bytesN k))
+
+theorem blSuffix_of_check {bl : List String} (h : blSuffixCheck bl = true) : ∀ w ∈ bl, w ++ "_" ∉ bl := by
+  intro w hw hmem
+  have := List.all_eq_true.mp h _ (List.mem_map_of_mem (f := bytesN) hw)
+  simp only [Bool.not_eq_eq_eq_not, Bool.not_true, List.contains_eq_mem, List.mem_filter,
+    decide_eq_false_iff_not, not_and] at this
+  apply this
+  · rw [← bytesN_append_us]; exact List.mem_map_of_mem hmem
+  · simp
+
+theorem subset_of_check {ks bl : List String} (h : subsetCheck ks bl = true) : ∀ k ∈ ks, k ∈ bl := by
+  intro k hk
+  have := List.all_eq_true.mp h k hk
+  exact mem_of_bytesN_mem (by simpa using this)
 
 end NamesP
 end J2M
